@@ -1,7 +1,18 @@
-(* Entry point of the extracted model for property C16: run_C16 case = observation. *)
+(* Entry point of the extracted model for property C16.
+   cases: (1 scenario)  a demux scenario (RunDemux.v); the implementation serialises every returned value twice, at
+                        delivery and again after all later activity (with the payload pool poisoned in between); values
+                        of the model are immutable, so the model's answer is the delivery-time list, twice
+          (2 muxcase)   a muxer history (RunMux.v); additionally the caller's payloads must be unchanged
+          (3 n seed)    n goroutines with their own Demuxer and Muxer: concurrent results = sequential results *)
 From Coq Require Import ZArith List.
-Require Import Base.Tok Base.Iter Extract.RunBase.
+Require Import Base.Tok Base.Iter Model.DemuxFull Extract.RunBase Extract.RunDemux Extract.RunMux.
 Import ListNotations.
 Open Scope Z_scope.
 
-Definition run_C16 (t : tok) : tok := TL [].
+Definition run_C16 (t : tok) : tok :=
+  match tI (tnth 0 t) with
+  | 1 => let o := run_demux full_parsers (tnth 1 t) in TL [o; tnth 0 o]
+  | 2 => TL [run_mux (tnth 1 t); TI 1]
+  | 3 => TI 1
+  | _ => TL []
+  end.
